@@ -6,19 +6,22 @@ import VrpModel.Generated.C12Chain
 * T4 obligations: the chain of rule groups and the sub-check lists of the model equal what the translator extracted
   from `vrp-pragmatic/src/checker/*.rs`.
 * `check_eq_nil`: the checker accepts iff no index underflow happens and every sub-check of every group accepts.
-* completeness (specification ⟹ sub-check accepts): `limits_complete`, `routing_complete`, `vehicles_complete`,
-  `presence_complete` (the partition theorem, by counting), combined in `checker_complete_partial`
-  (load / relations / breaks / matcher / groups acceptance are hypotheses there).
+* completeness (specification ⟹ sub-check accepts): `loads_complete` (the interval fold of
+  `check_vehicle_load_assignment` against the positional load formula, any number of reload intervals and dimensions),
+  `limits_complete`, `routing_complete`, `vehicles_complete`, `presence_complete` (the partition theorem, by counting),
+  combined in `checker_complete_partial` (relations / breaks / matcher / groups acceptance are hypotheses there).
 * breach lemmas, two halves each (`breach_*_invalid`: the specification is violated; `checker_rejects_*`: the model checker
-  rejects): limit distance / duration / tour size, unknown vehicle, vehicle used twice, leg mismatch (arrival, departure and
-  distance shifts), overall statistic, load above capacity (checker half), assigned and unassigned, unknown job (tour /
-  unassigned list), duplicated unassigned entry, wrong number of activities of a job (duplicated / partly dropped), job split
-  over tours, broken any (incl. S17) / sequence / strict relation, missing break.
+  rejects): load above capacity, limit distance / duration / tour size, unknown vehicle, vehicle used twice, leg mismatch
+  (arrival, departure and distance shifts), overall statistic, assigned and unassigned, unknown job (tour / unassigned
+  list), duplicated unassigned entry, wrong number of activities of a job (duplicated / partly dropped), job split over
+  tours, broken any (incl. S17) / sequence / strict relation, missing break. Not proved: misreported load, misplaced break
+  (compared on every generated mutant instead).
 * concrete `decide`d examples: a valid supported pair accepted by the model, breaches of it per class, and the open
   deviation D11 (physically correct loads rejected).
 -/
 set_option linter.unusedSimpArgs false
 set_option linter.unusedVariables false
+set_option linter.unnecessarySimpa false
 
 namespace C12
 
@@ -2189,6 +2192,744 @@ end C12
 namespace C12
 open Spec
 
+/-! ## loads: completeness of `check_vehicle_load_assignment` against the positional load formula -/
+
+/-- the specification's per-activity triple for the code's demand kind -/
+def deltaOf (k : DKind) (x : Int) : Int × Int × Int :=
+  match k with
+  | .sDelivery => (x, 0, 0)
+  | .sPickup => (0, x, 0)
+  | .dPickup => (0, 0, x)
+  | .dDelivery => (0, 0, -x)
+  | .none => (0, 0, 0)
+  | .sBoth => (x, x, 0)
+
+/-- the code's view of an activity (type lookup and demand) and the specification's view coincide -/
+def ActCorr (P : Problem) (t : Tour) (s : Stop) (a : Act) : Prop :=
+  ∃ aty k dem, activityType P t s a = .ok aty ∧ demandOf a aty = .ok (k, dem) ∧ k ≠ .sBoth ∧
+    (∀ d, actDelta P a d = deltaOf k (lget dem d)) ∧ ((a.ty = .arrival ∨ a.ty = .reload) → k = .none)
+
+theorem actDelta_nonjob (P : Problem) (a : Act) (d : Nat) (h1 : a.ty ≠ .delivery) (h2 : a.ty ≠ .pickup) :
+    actDelta P a d = (0, 0, 0) := by
+  unfold actDelta
+  cases taskOf P a with
+  | none => rfl
+  | some jt =>
+    obtain ⟨j, tk⟩ := jt
+    cases hty : a.ty <;> simp_all
+
+theorem actCorr_of_known (P : Problem) (t : Tour) (hk : actsKnown P t = true) (s : Stop) (hs : s ∈ t.stops)
+    (a : Act) (ha : a ∈ s.acts) : ActCorr P t s a := by
+  simp only [actsKnown, Bool.and_eq_true, List.all_eq_true] at hk
+  obtain ⟨hvs, hall⟩ := hk
+  have hka := hall s hs a ha
+  cases hsh : vehicleShift P t with
+  | error c => simp [hsh, Except.toOption] at hvs
+  | ok shift =>
+    cases hty : a.ty with
+    | departure =>
+      refine ⟨.terminal, .none, [], ?_, ?_, by simp, ?_, ?_⟩
+      · simp [activityType, hsh, hty]
+      · simp [demandOf, dkind, hty]
+      · intro d; rw [actDelta_nonjob P a d (by simp [hty]) (by simp [hty])]; rfl
+      · intro _; rfl
+    | arrival =>
+      refine ⟨.terminal, .none, [], ?_, ?_, by simp, ?_, ?_⟩
+      · simp [activityType, hsh, hty]
+      · simp [demandOf, dkind, hty]
+      · intro d; rw [actDelta_nonjob P a d (by simp [hty]) (by simp [hty])]; rfl
+      · intro _; rfl
+    | brk =>
+      simp only [hty] at hka
+      cases hat : activityType P t s a with
+      | error c => simp [hat, Except.toOption] at hka
+      | ok aty =>
+        have hnj : ∃ b, aty = .brk b := by
+          simp only [activityType, hsh, hty] at hat
+          split at hat
+          · simp at hat
+          · rename_i b _; exact ⟨b, by simpa using hat.symm⟩
+        obtain ⟨b, rfl⟩ := hnj
+        refine ⟨.brk b, .none, [], hat, ?_, by simp, ?_, ?_⟩
+        · simp [demandOf, dkind, hty]
+        · intro d; rw [actDelta_nonjob P a d (by simp [hty]) (by simp [hty])]; rfl
+        · intro _; rfl
+    | reload =>
+      simp only [hty] at hka
+      cases hat : activityType P t s a with
+      | error c => simp [hat, Except.toOption] at hka
+      | ok aty =>
+        have hnj : ∃ r, aty = .reload r := by
+          simp only [activityType, hsh, hty] at hat
+          split at hat
+          · simp at hat
+          · rename_i r _; exact ⟨r, by simpa using hat.symm⟩
+        obtain ⟨r, rfl⟩ := hnj
+        refine ⟨.reload r, .none, [], hat, ?_, by simp, ?_, ?_⟩
+        · simp [demandOf, dkind, hty]
+        · intro d; rw [actDelta_nonjob P a d (by simp [hty]) (by simp [hty])]; rfl
+        · intro _; rfl
+    | replacement => simp [hty] at hka
+    | recharge => simp [hty] at hka
+    | other => simp [hty] at hka
+    | pickup =>
+      simp only [hty] at hka
+      cases htk : taskOf P a with
+      | none => simp [htk] at hka
+      | some jt =>
+        obtain ⟨j, tk⟩ := jt
+        have hj : findJob P a.jobId = some j ∧ matchTask a j = .ok tk := by
+          unfold taskOf at htk
+          cases hf : findJob P a.jobId with
+          | none => simp [hf] at htk
+          | some j' =>
+            simp only [hf] at htk
+            cases hm : matchTask a j' with
+            | error c => simp [hm] at htk
+            | ok tk' => simp only [hm, Option.some.injEq, Prod.mk.injEq] at htk; obtain ⟨rfl, rfl⟩ := htk; exact ⟨rfl, hm⟩
+        refine ⟨.job j, dkind (isDynamic j) a.ty, tk.demand, ?_, ?_, ?_, ?_, ?_⟩
+        · simp [activityType, hsh, hty, hj.1]
+        · simp [demandOf, hj.2]
+        · simp [dkind, hty]; split <;> simp
+        · intro d
+          simp only [actDelta, htk, hty, dkind, lget]
+          split <;> simp [deltaOf]
+        · intro h; rcases h with h | h <;> simp [hty] at h
+    | delivery =>
+      simp only [hty] at hka
+      cases htk : taskOf P a with
+      | none => simp [htk] at hka
+      | some jt =>
+        obtain ⟨j, tk⟩ := jt
+        have hj : findJob P a.jobId = some j ∧ matchTask a j = .ok tk := by
+          unfold taskOf at htk
+          cases hf : findJob P a.jobId with
+          | none => simp [hf] at htk
+          | some j' =>
+            simp only [hf] at htk
+            cases hm : matchTask a j' with
+            | error c => simp [hm] at htk
+            | ok tk' => simp only [hm, Option.some.injEq, Prod.mk.injEq] at htk; obtain ⟨rfl, rfl⟩ := htk; exact ⟨rfl, hm⟩
+        refine ⟨.job j, dkind (isDynamic j) a.ty, tk.demand, ?_, ?_, ?_, ?_, ?_⟩
+        · simp [activityType, hsh, hty, hj.1]
+        · simp [demandOf, hj.2]
+        · simp [dkind, hty]; split <;> simp
+        · intro d
+          simp only [actDelta, htk, hty, dkind, lget]
+          split <;> simp [deltaOf]
+        · intro h; rcases h with h | h <;> simp [hty] at h
+    | service =>
+      simp only [hty] at hka
+      cases htk : taskOf P a with
+      | none => simp [htk] at hka
+      | some jt =>
+        obtain ⟨j, tk⟩ := jt
+        have hj : findJob P a.jobId = some j ∧ matchTask a j = .ok tk := by
+          unfold taskOf at htk
+          cases hf : findJob P a.jobId with
+          | none => simp [hf] at htk
+          | some j' =>
+            simp only [hf] at htk
+            cases hm : matchTask a j' with
+            | error c => simp [hm] at htk
+            | ok tk' => simp only [hm, Option.some.injEq, Prod.mk.injEq] at htk; obtain ⟨rfl, rfl⟩ := htk; exact ⟨rfl, hm⟩
+        refine ⟨.job j, dkind (isDynamic j) a.ty, tk.demand, ?_, ?_, ?_, ?_, ?_⟩
+        · simp [activityType, hsh, hty, hj.1]
+        · simp [demandOf, hj.2]
+        · simp [dkind, hty]
+        · intro d
+          rw [actDelta_nonjob P a d (by simp [hty]) (by simp [hty])]
+          simp [dkind, hty, deltaOf]
+        · intro h; rcases h with h | h <;> simp [hty] at h
+
+end C12
+
+namespace C12
+open Spec
+
+theorem sumInt_append (a b : List Int) : sumInt (a ++ b) = sumInt a + sumInt b := by
+  induction a with
+  | nil => simp [sumInt]
+  | cons x a ih => simp only [List.cons_append, sumInt, ih]; omega
+
+theorem sumStops_append (f : Stop → Int) (a b : List Stop) : sumStops f (a ++ b) = sumStops f a + sumStops f b := by
+  simp [sumStops, sumInt_append]
+
+theorem sumStops_cons (f : Stop → Int) (x : Stop) (l : List Stop) : sumStops f (x :: l) = f x + sumStops f l := by
+  simp [sumStops, sumInt]
+
+theorem sumStops_nil (f : Stop → Int) : sumStops f [] = 0 := by simp [sumStops, sumInt]
+
+/-- sums over the activities of an interval are sums over its stops -/
+theorem sum_stopActs (g : Act → Int) (iv : List Stop) :
+    sumInt ((stopActs iv).map (fun p => g p.2)) = sumStops (fun s => sumInt (s.acts.map g)) iv := by
+  induction iv with
+  | nil => simp [stopActs, sumStops, sumInt]
+  | cons s rest ih =>
+    simp only [stopActs, List.flatMap_cons, List.map_append, sumInt_append, sumStops_cons] at ih ⊢
+    rw [ih]
+    simp [List.map_map, Function.comp_def]
+
+/-- the `(start_delivery, end_pickup)` fold adds up the static deliveries and the static pickups -/
+theorem sumsGo_ok (P : Problem) (t : Tour) (L : List (Stop × Act)) (acc : Load × Load)
+    (hc : ∀ p ∈ L, ActCorr P t p.1 p.2) :
+    ∃ r, sumsGo P t acc L = .ok r ∧
+      (∀ d, lget r.1 d = lget acc.1 d + sumInt (L.map (fun p => (actDelta P p.2 d).1))) ∧
+      (∀ d, lget r.2 d = lget acc.2 d + sumInt (L.map (fun p => (actDelta P p.2 d).2.1))) := by
+  induction L generalizing acc with
+  | nil => exact ⟨acc, rfl, by simp [sumInt], by simp [sumInt]⟩
+  | cons p rest ih =>
+    obtain ⟨s, a⟩ := p
+    obtain ⟨aty, k, dem, hat, hdem, hnb, hdelta, _⟩ := hc (s, a) (by simp)
+    simp only [sumsGo, hat, hdem]
+    cases k with
+    | sBoth => exact absurd rfl hnb
+    | sDelivery =>
+      obtain ⟨r, hr, h1, h2⟩ := ih (ladd acc.1 dem, acc.2) (fun p hp => hc p (by simp [hp]))
+      refine ⟨r, hr, ?_, ?_⟩
+      · intro d; rw [h1 d]; simp only [List.map_cons, sumInt, hdelta d, deltaOf, lget_ladd]; omega
+      · intro d; rw [h2 d]; simp only [List.map_cons, sumInt, hdelta d, deltaOf]; omega
+    | sPickup =>
+      obtain ⟨r, hr, h1, h2⟩ := ih (acc.1, ladd acc.2 dem) (fun p hp => hc p (by simp [hp]))
+      refine ⟨r, hr, ?_, ?_⟩
+      · intro d; rw [h1 d]; simp only [List.map_cons, sumInt, hdelta d, deltaOf]; omega
+      · intro d; rw [h2 d]; simp only [List.map_cons, sumInt, hdelta d, deltaOf, lget_ladd]; omega
+    | none =>
+      obtain ⟨r, hr, h1, h2⟩ := ih acc (fun p hp => hc p (by simp [hp]))
+      refine ⟨r, hr, ?_, ?_⟩
+      · intro d; rw [h1 d]; simp only [List.map_cons, sumInt, hdelta d, deltaOf]; omega
+      · intro d; rw [h2 d]; simp only [List.map_cons, sumInt, hdelta d, deltaOf]; omega
+    | dPickup =>
+      obtain ⟨r, hr, h1, h2⟩ := ih acc (fun p hp => hc p (by simp [hp]))
+      refine ⟨r, hr, ?_, ?_⟩
+      · intro d; rw [h1 d]; simp only [List.map_cons, sumInt, hdelta d, deltaOf]; omega
+      · intro d; rw [h2 d]; simp only [List.map_cons, sumInt, hdelta d, deltaOf]; omega
+    | dDelivery =>
+      obtain ⟨r, hr, h1, h2⟩ := ih acc (fun p hp => hc p (by simp [hp]))
+      refine ⟨r, hr, ?_, ?_⟩
+      · intro d; rw [h1 d]; simp only [List.map_cons, sumInt, hdelta d, deltaOf]; omega
+      · intro d; rw [h2 d]; simp only [List.map_cons, sumInt, hdelta d, deltaOf]; omega
+
+/-- net change of the load by a list of activities, per dimension -/
+def netOf (P : Problem) (d : Nat) (acts : List Act) : Int :=
+  - sumInt (acts.map (fun a => (actDelta P a d).1)) + sumInt (acts.map (fun a => (actDelta P a d).2.1))
+  + sumInt (acts.map (fun a => (actDelta P a d).2.2))
+
+theorem netOf_cons (P : Problem) (d : Nat) (a : Act) (acts : List Act) :
+    netOf P d (a :: acts) = (- (actDelta P a d).1 + (actDelta P a d).2.1 + (actDelta P a d).2.2) + netOf P d acts := by
+  simp only [netOf, List.map_cons, sumInt]; omega
+
+/-- the `start_load` fold -/
+theorem startGo_ok (P : Problem) (t : Tour) (s0 : Stop) (acts : List Act) (acc : Load)
+    (hc : ∀ a ∈ acts, ActCorr P t s0 a) :
+    ∃ r, startGo P t s0 acc acts = .ok r ∧ ∀ d, lget r d = lget acc d + netOf P d acts := by
+  induction acts generalizing acc with
+  | nil => exact ⟨acc, rfl, by simp [netOf, sumInt]⟩
+  | cons a rest ih =>
+    obtain ⟨aty, k, dem, hat, hdem, hnb, hdelta, _⟩ := hc a (by simp)
+    simp only [startGo, hat, hdem]
+    cases k with
+    | sBoth => exact absurd rfl hnb
+    | sDelivery =>
+      obtain ⟨r, hr, h1⟩ := ih (lsub acc dem) (fun a ha => hc a (by simp [ha]))
+      exact ⟨r, hr, fun d => by rw [h1 d, netOf_cons, hdelta d]; simp only [deltaOf, lget_lsub]; omega⟩
+    | dDelivery =>
+      obtain ⟨r, hr, h1⟩ := ih (lsub acc dem) (fun a ha => hc a (by simp [ha]))
+      exact ⟨r, hr, fun d => by rw [h1 d, netOf_cons, hdelta d]; simp only [deltaOf, lget_lsub]; omega⟩
+    | sPickup =>
+      obtain ⟨r, hr, h1⟩ := ih (ladd acc dem) (fun a ha => hc a (by simp [ha]))
+      exact ⟨r, hr, fun d => by rw [h1 d, netOf_cons, hdelta d]; simp only [deltaOf, lget_ladd]; omega⟩
+    | dPickup =>
+      obtain ⟨r, hr, h1⟩ := ih (ladd acc dem) (fun a ha => hc a (by simp [ha]))
+      exact ⟨r, hr, fun d => by rw [h1 d, netOf_cons, hdelta d]; simp only [deltaOf, lget_ladd]; omega⟩
+    | none =>
+      obtain ⟨r, hr, h1⟩ := ih acc (fun a ha => hc a (by simp [ha]))
+      exact ⟨r, hr, fun d => by rw [h1 d, netOf_cons, hdelta d]; simp only [deltaOf]; omega⟩
+
+def unloadsOf (acts : List Act) : Int := ((countP (fun a => a.ty == .arrival || a.ty == .reload) acts : Nat) : Int)
+
+/-- the `change` fold of a leg's `to` stop -/
+theorem changeGo_ok (P : Problem) (t : Tour) (to : Stop) (ep : Load) (acts : List Act) (acc : Load)
+    (hc : ∀ a ∈ acts, ActCorr P t to a) :
+    ∃ r, changeGo P t to ep acc acts = .ok r ∧
+      ∀ d, lget r d = lget acc d + netOf P d acts - unloadsOf acts * lget ep d := by
+  induction acts generalizing acc with
+  | nil => exact ⟨acc, rfl, by simp [netOf, sumInt, unloadsOf, countP]⟩
+  | cons a rest ih =>
+    obtain ⟨aty, k, dem, hat, hdem, hnb, hdelta, hterm⟩ := hc a (by simp)
+    simp only [changeGo, hat]
+    by_cases hu : (a.ty == ATy.arrival || a.ty == ATy.reload) = true
+    · -- tour end / reload: the collected pickups leave
+      simp only [hu, if_true]
+      have hk : k = .none := hterm (by simpa using hu)
+      subst hk
+      obtain ⟨r, hr, h1⟩ := ih (lsub acc ep) (fun a ha => hc a (by simp [ha]))
+      refine ⟨r, hr, fun d => ?_⟩
+      rw [h1 d, netOf_cons, hdelta d]
+      simp only [deltaOf, lget_lsub, unloadsOf, countP, hu, if_true]
+      have : (((1 + countP (fun a => a.ty == ATy.arrival || a.ty == ATy.reload) rest : Nat) : Int))
+          = 1 + ((countP (fun a => a.ty == ATy.arrival || a.ty == ATy.reload) rest : Nat) : Int) := by omega
+      rw [this, Int.add_mul]
+      omega
+    · simp only [hu, Bool.false_eq_true, if_false, hdem]
+      have hcnt : unloadsOf (a :: rest) = unloadsOf rest := by simp [unloadsOf, countP, hu]
+      cases k with
+      | sBoth => exact absurd rfl hnb
+      | sDelivery =>
+        obtain ⟨r, hr, h1⟩ := ih (lsub acc dem) (fun a ha => hc a (by simp [ha]))
+        exact ⟨r, hr, fun d => by rw [h1 d, netOf_cons, hdelta d, hcnt]; simp only [deltaOf, lget_lsub]; omega⟩
+      | dDelivery =>
+        obtain ⟨r, hr, h1⟩ := ih (lsub acc dem) (fun a ha => hc a (by simp [ha]))
+        exact ⟨r, hr, fun d => by rw [h1 d, netOf_cons, hdelta d, hcnt]; simp only [deltaOf, lget_lsub]; omega⟩
+      | sPickup =>
+        obtain ⟨r, hr, h1⟩ := ih (ladd acc dem) (fun a ha => hc a (by simp [ha]))
+        exact ⟨r, hr, fun d => by rw [h1 d, netOf_cons, hdelta d, hcnt]; simp only [deltaOf, lget_ladd]; omega⟩
+      | dPickup =>
+        obtain ⟨r, hr, h1⟩ := ih (ladd acc dem) (fun a ha => hc a (by simp [ha]))
+        exact ⟨r, hr, fun d => by rw [h1 d, netOf_cons, hdelta d, hcnt]; simp only [deltaOf, lget_ladd]; omega⟩
+      | none =>
+        obtain ⟨r, hr, h1⟩ := ih acc (fun a ha => hc a (by simp [ha]))
+        exact ⟨r, hr, fun d => by rw [h1 d, netOf_cons, hdelta d, hcnt]; simp only [deltaOf]; omega⟩
+
+/-- consecutive stops of an interval differ by the net change of the later stop, minus the pickups per unloading -/
+def LoadChain (P : Problem) (ep : Load) : Stop → List Stop → Prop
+  | _, [] => True
+  | x, y :: rest =>
+    (∀ d, lget y.load d = lget x.load d + netOf P d y.acts - unloadsOf y.acts * lget ep d) ∧ LoadChain P ep y rest
+
+/-- the leg fold accepts a chain of fitting, non-empty loads that starts at the expected start load -/
+theorem legsGo_ok (P : Problem) (t : Tour) (cap ep : Load) (acc : Load) (from_ : Stop) (rest : List Stop)
+    (hc : ∀ s ∈ rest, ∀ a ∈ s.acts, ActCorr P t s a)
+    (hfit : ∀ s ∈ from_ :: rest, lfit cap s.load = true) (hne : ∀ s ∈ from_ :: rest, s.load ≠ [])
+    (hacc : ∀ d, lget from_.load d = lget acc d) (hchain : LoadChain P ep from_ rest) :
+    ∃ r, legsGo P t cap ep acc from_ rest = .ok r ∧
+      ∀ d, lget r d = lget ((from_ :: rest).getLast (by simp)).load d := by
+  induction rest generalizing acc from_ with
+  | nil => exact ⟨acc, rfl, fun d => by simp [hacc d]⟩
+  | cons to rest ih =>
+    obtain ⟨hstep, hrest⟩ := hchain
+    have hf1 := hfit from_ (by simp)
+    have hf2 := hfit to (by simp)
+    obtain ⟨ch, hch, hchd⟩ := changeGo_ok P t to ep to.acts [] (hc to (by simp))
+    have hl1 : leq from_.load acc = true := by
+      rw [leq_iff]
+      exact ⟨fun h => hne from_ (by simp) h.1, hacc⟩
+    have hl2 : leq to.load (ladd from_.load ch) = true := by
+      rw [leq_iff]
+      refine ⟨fun h => hne to (by simp) h.1, fun d => ?_⟩
+      rw [lget_ladd, hchd d, hstep d, lget_nil]
+      omega
+    obtain ⟨r, hr, hrd⟩ := ih to.load to (fun s hs => hc s (by simp [hs])) (fun s hs => hfit s (by simp [hs]))
+      (fun s hs => hne s (by simp [hs])) (fun _ => rfl) hrest
+    refine ⟨r, ?_, ?_⟩
+    · simp only [legsGo, hf1, hf2, Bool.not_true, Bool.or_self, Bool.false_eq_true, if_false, hch, hl1, hl2,
+        Bool.and_self, if_true]
+      exact hr
+    · intro d
+      rw [hrd d]
+      simp [List.getLast_cons]
+
+end C12
+
+namespace C12
+open Spec
+
+theorem drop_succ_pre {α} (pre : List α) (x : α) (l : List α) : (pre ++ x :: l).drop (pre.length + 1) = l := by
+  induction pre with
+  | nil => simp
+  | cons p pre ih => simpa using ih
+
+theorem take_succ_pre {α} (pre : List α) (x : α) (l : List α) : (pre ++ x :: l).take (pre.length + 1) = pre ++ [x] := by
+  induction pre with
+  | nil => simp
+  | cons p pre ih => simpa using ih
+
+theorem getElem?_pre {α} (pre : List α) (x : α) (l : List α) : (pre ++ x :: l)[pre.length]? = some x := by
+  induction pre with
+  | nil => simp
+  | cons p pre ih => simpa using ih
+
+theorem netOf_stop (P : Problem) (d : Nat) (s : Stop) :
+    netOf P d s.acts = - stopD P d s + stopP P d s + stopY P d s := by
+  simp [netOf, stopD, stopP, stopY]
+
+theorem unloadsOf_stop (s : Stop) : unloadsOf s.acts = unloads s := rfl
+
+/-- the positional formula moves from one stop of an interval to the next by the net change of that next stop, minus
+the interval's pickups per unloading activity in it -/
+theorem expectedLoad_step (P : Problem) (dynB : Nat → Int) (pre post : List Stop) (x y : Stop) (d : Nat) :
+    expectedLoad P dynB (pre ++ x :: y :: post) (pre.length + 1) d
+      = expectedLoad P dynB (pre ++ x :: y :: post) pre.length d + netOf P d y.acts
+        - unloads y * sumStops (stopP P d) (pre ++ x :: y :: post) := by
+  have e1 : (pre ++ x :: y :: post).drop (pre.length + 1) = y :: post := drop_succ_pre pre x (y :: post)
+  have e2 : (pre ++ x :: y :: post).drop (pre.length + 1 + 1) = post := by
+    have := drop_succ_pre (pre ++ [x]) y post
+    simpa using this
+  have e3 : (pre ++ x :: y :: post).take (pre.length + 1) = pre ++ [x] := take_succ_pre pre x (y :: post)
+  have e4 : (pre ++ x :: y :: post).take (pre.length + 1 + 1) = (pre ++ [x]) ++ [y] := by
+    have := take_succ_pre (pre ++ [x]) y post
+    simpa using this
+  have e5 : ((pre ++ [x]) ++ [y]).drop 1 = (pre ++ [x]).drop 1 ++ [y] := by
+    cases pre <;> simp
+  unfold expectedLoad
+  rw [e1, e2, e3, e4, e5]
+  simp only [sumStops_append, sumStops_cons, sumStops_nil, netOf_stop]
+  generalize sumStops (stopP P d) pre + (stopP P d x + (stopP P d y + sumStops (stopP P d) post)) = SP
+  rw [Int.mul_add, Int.mul_add, Int.mul_comm (unloads y) SP]
+  omega
+
+theorem le_maxNat (l : List Nat) (x : Nat) (h : x ∈ l) : x ≤ maxNat l := by
+  induction l with
+  | nil => simp at h
+  | cons y rest ih =>
+    simp only [maxNat, List.mem_cons] at *
+    rcases h with rfl | h
+    · omega
+    · have := ih h; omega
+
+theorem matchTask_mem (a : Act) (j : Job) (tk : Task) (h : matchTask a j = .ok tk) : tk ∈ j.tasks := by
+  unfold matchTask at h
+  simp only at h
+  split at h
+  · cases hk : kindOfTy a.ty with
+    | none => simp [hk] at h
+    | some k =>
+      simp only [hk, Option.bind_some] at h
+      cases hh : (tasksOf j k).head? with
+      | none => simp [hh] at h
+      | some t0 =>
+        simp only [hh] at h
+        have : t0 = tk := by simpa using h
+        subst this
+        have := List.mem_of_head? hh
+        exact (List.mem_filter.1 this).1
+  · cases htag : a.tag with
+    | none => simp [htag] at h
+    | some tg =>
+      simp only [htag] at h
+      cases hk : kindOfTy a.ty with
+      | none => simp [hk] at h
+      | some k =>
+        simp only [hk, Option.bind_some] at h
+        cases hh : (tasksOf j k).find? (fun t => t.places.any (fun p => p.tag == some tg)) with
+        | none => simp [hh] at h
+        | some t0 =>
+          simp only [hh] at h
+          have : t0 = tk := by simpa using h
+          subst this
+          have := List.mem_of_find?_eq_some hh
+          exact (List.mem_filter.1 this).1
+
+/-- beyond the dimensions in play nothing changes the load -/
+theorem actDelta_zero_beyond (P : Problem) (v : VType) (a : Act) (d : Nat) (hd : dims P v ≤ d) :
+    actDelta P a d = (0, 0, 0) := by
+  unfold actDelta
+  cases htk : taskOf P a with
+  | none => rfl
+  | some jt =>
+    obtain ⟨j, tk⟩ := jt
+    have hmem : findJob P a.jobId = some j ∧ matchTask a j = .ok tk := by
+      unfold taskOf at htk
+      cases hf : findJob P a.jobId with
+      | none => simp [hf] at htk
+      | some j' =>
+        simp only [hf] at htk
+        cases hm : matchTask a j' with
+        | error c => simp [hm] at htk
+        | ok tk' => simp only [hm, Option.some.injEq, Prod.mk.injEq] at htk; obtain ⟨rfl, rfl⟩ := htk; exact ⟨rfl, hm⟩
+    have hj := (findJob_some P _ j hmem.1).1
+    have htm := matchTask_mem a j tk hmem.2
+    have hlen : tk.demand.length ≤ d := by
+      have : tk.demand.length ∈ P.jobs.flatMap (fun j => j.tasks.map (fun tk => tk.demand.length)) :=
+        List.mem_flatMap.2 ⟨j, hj, List.mem_map.2 ⟨tk, htm, rfl⟩⟩
+      have := le_maxNat _ _ this
+      unfold dims at hd
+      omega
+    have hx : tk.demand.getD d 0 = 0 := by
+      rw [List.getD_eq_getElem?_getD, List.getElem?_eq_none hlen]; rfl
+    simp only [hx]
+    cases a.ty <;> simp <;> split <;> rfl
+
+theorem sumStops_zero (f : Stop → Int) (l : List Stop) (h : ∀ s, f s = 0) : sumStops f l = 0 := by
+  induction l with
+  | nil => exact sumStops_nil f
+  | cons x rest ih => rw [sumStops_cons, h x, ih]; rfl
+
+theorem stop_sums_zero_beyond (P : Problem) (v : VType) (d : Nat) (hd : dims P v ≤ d) (s : Stop) :
+    stopD P d s = 0 ∧ stopP P d s = 0 ∧ stopY P d s = 0 := by
+  have hz : ∀ (g : Int × Int × Int → Int), g (0, 0, 0) = 0 → sumInt (s.acts.map (fun a => g (actDelta P a d))) = 0 := by
+    intro g hg
+    induction s.acts with
+    | nil => rfl
+    | cons a rest ih => simp only [List.map_cons, sumInt, actDelta_zero_beyond P v a d hd, hg, ih]; rfl
+  exact ⟨hz (fun x => x.1) rfl, hz (fun x => x.2.1) rfl, hz (fun x => x.2.2) rfl⟩
+
+theorem expectedLoad_beyond (P : Problem) (v : VType) (dynB : Nat → Int) (iv : List Stop) (m d : Nat)
+    (hd : dims P v ≤ d) : expectedLoad P dynB iv m d = dynB d := by
+  unfold expectedLoad
+  rw [sumStops_zero _ _ (fun s => (stop_sums_zero_beyond P v d hd s).1),
+      sumStops_zero _ _ (fun s => (stop_sums_zero_beyond P v d hd s).2.1),
+      sumStops_zero _ _ (fun s => (stop_sums_zero_beyond P v d hd s).2.2),
+      sumStops_zero (stopP P d) iv (fun s => (stop_sums_zero_beyond P v d hd s).2.1)]
+  simp
+
+/-- what the per-stop rule of the specification gives for ALL dimensions -/
+theorem stopLoadOk_unpack (P : Problem) (v : VType) (dynB : Nat → Int) (iv : List Stop) (m : Nat) (s : Stop)
+    (hz : ∀ d, dims P v ≤ d → dynB d = 0) (h : stopLoadOk P v.capacity (dims P v) dynB iv m s = true) :
+    s.load ≠ [] ∧ (∀ d, lget s.load d = expectedLoad P dynB iv m d) ∧ lfit v.capacity s.load = true := by
+  simp only [stopLoadOk, Bool.and_eq_true, Bool.not_eq_true', decide_eq_true_eq, List.all_eq_true, List.mem_range,
+    beq_iff_eq] at h
+  obtain ⟨⟨hne, hlen⟩, hall⟩ := h
+  refine ⟨?_, ?_, ?_⟩
+  · intro hnil; rw [hnil] at hne; simp at hne
+  · intro d
+    by_cases hd : d < dims P v
+    · exact (hall d hd).1
+    · have hd' : dims P v ≤ d := by omega
+      rw [expectedLoad_beyond P v dynB iv m d hd', hz d hd']
+      unfold lget
+      rw [List.getD_eq_getElem?_getD, List.getElem?_eq_none (by omega)]; rfl
+  · rw [lfit_iff]
+    intro d
+    by_cases hd : d < dims P v
+    · exact (hall d hd).2
+    · have hd' : dims P v ≤ d := by omega
+      have h1 : lget s.load d = 0 := by
+        unfold lget
+        rw [List.getD_eq_getElem?_getD, List.getElem?_eq_none (by omega)]; rfl
+      have h2 : lget v.capacity d = 0 := by
+        unfold lget
+        have : v.capacity.length ≤ d := by unfold dims at hd'; omega
+        rw [List.getD_eq_getElem?_getD, List.getElem?_eq_none this]; rfl
+      omega
+
+/-- from the positional rule to the chain of consecutive stops -/
+theorem loadChain_of_positional (P : Problem) (v : VType) (dynB : Nat → Int) (ep : Load) (pre : List Stop) (x : Stop)
+    (rest : List Stop)
+    (hep : ∀ d, lget ep d = sumStops (stopP P d) (pre ++ x :: rest))
+    (hpos : ∀ m s, (pre ++ x :: rest)[m]? = some s → ∀ d, lget s.load d = expectedLoad P dynB (pre ++ x :: rest) m d) :
+    LoadChain P ep x rest := by
+  induction rest generalizing pre x with
+  | nil => trivial
+  | cons y post ih =>
+    refine ⟨?_, ?_⟩
+    · intro d
+      have hx := hpos pre.length x (getElem?_pre pre x (y :: post)) d
+      have hy := hpos (pre.length + 1) y (by
+        have := getElem?_pre (pre ++ [x]) y post
+        simpa using this) d
+      rw [hy, hx, expectedLoad_step, hep d, unloadsOf_stop]
+    · have := ih (pre ++ [x]) y (by simpa using hep) (by simpa using hpos)
+      exact this
+
+end C12
+
+namespace C12
+open Spec
+
+theorem mem_stopActs (iv : List Stop) (p : Stop × Act) (h : p ∈ stopActs iv) : p.1 ∈ iv ∧ p.2 ∈ p.1.acts := by
+  unfold stopActs at h
+  rw [List.mem_flatMap] at h
+  obtain ⟨s, hs, hp⟩ := h
+  rw [List.mem_map] at hp
+  obtain ⟨a, ha, rfl⟩ := hp
+  exact ⟨hs, ha⟩
+
+theorem intervalLoadsOk_at (P : Problem) (cap : Load) (nd : Nat) (dynB : Nat → Int) (iv : List Stop)
+    (h : intervalLoadsOk P cap nd dynB iv = true) (m : Nat) (s : Stop) (hm : iv[m]? = some s) :
+    stopLoadOk P cap nd dynB iv m s = true := by
+  unfold intervalLoadsOk at h
+  rw [List.all_eq_true] at h
+  have hlt : m < iv.length := by
+    by_cases hlt : m < iv.length
+    · exact hlt
+    · rw [List.getElem?_eq_none (by omega)] at hm; simp at hm
+  have := h m (List.mem_range.2 hlt)
+  simpa [hm] using this
+
+theorem mem_of_getElem?_some {α} (l : List α) (m : Nat) (x : α) (h : l[m]? = some x) : x ∈ l :=
+  List.mem_of_getElem? h
+
+/-- one reload interval: the three folds of the code succeed on loads that obey the positional rule, and hand over
+what the rule says stays on board -/
+theorem interval_ok (P : Problem) (t : Tour) (v : VType) (dynB : Nat → Int) (acc : Load) (s0 : Stop) (tl : List Stop)
+    (hc : ∀ s ∈ s0 :: tl, ∀ a ∈ s.acts, ActCorr P t s a)
+    (hacc : ∀ d, lget acc d = dynB d) (hz : ∀ d, dims P v ≤ d → dynB d = 0)
+    (hspec : intervalLoadsOk P v.capacity (dims P v) dynB (s0 :: tl) = true) :
+    ∃ sd ep sl endCap, sumsGo P t (acc, []) (stopActs (s0 :: tl)) = .ok (sd, ep) ∧
+      startGo P t s0 sd s0.acts = .ok sl ∧ legsGo P t v.capacity ep sl s0 tl = .ok endCap ∧
+      ∀ d, lget (lsub endCap ep) d = carryAfter P dynB (s0 :: tl) d := by
+  have hat : ∀ m s, (s0 :: tl)[m]? = some s →
+      s.load ≠ [] ∧ (∀ d, lget s.load d = expectedLoad P dynB (s0 :: tl) m d) ∧ lfit v.capacity s.load = true :=
+    fun m s hm => stopLoadOk_unpack P v dynB (s0 :: tl) m s hz (intervalLoadsOk_at P _ _ dynB _ hspec m s hm)
+  have hmemIdx : ∀ s ∈ s0 :: tl, ∃ m : Nat, (s0 :: tl)[m]? = some s := by
+    intro s hs
+    obtain ⟨m, hm, rfl⟩ := List.mem_iff_getElem.1 hs
+    exact ⟨m, by simp [hm]⟩
+  -- sums
+  obtain ⟨r, hr, h1, h2⟩ := sumsGo_ok P t (stopActs (s0 :: tl)) (acc, [])
+    (fun p hp => hc p.1 (mem_stopActs _ p hp).1 p.2 (mem_stopActs _ p hp).2)
+  obtain ⟨sd, ep⟩ := r
+  simp only at h1 h2
+  have hsd : ∀ d, lget sd d = dynB d + sumStops (stopD P d) (s0 :: tl) := by
+    intro d
+    rw [h1 d, hacc d, sum_stopActs (fun a => (actDelta P a d).1)]
+    rfl
+  have hep : ∀ d, lget ep d = sumStops (stopP P d) (s0 :: tl) := by
+    intro d
+    rw [h2 d, lget_nil, sum_stopActs (fun a => (actDelta P a d).2.1)]
+    simp only [Int.zero_add]
+    rfl
+  -- start load
+  obtain ⟨sl, hsl, hsld⟩ := startGo_ok P t s0 s0.acts sd (hc s0 (by simp))
+  -- legs
+  have hacc0 : ∀ d, lget s0.load d = lget sl d := by
+    intro d
+    rw [(hat 0 s0 (by simp)).2.1 d, hsld d, hsd d, netOf_stop]
+    unfold expectedLoad
+    simp only [Nat.zero_add, List.drop_succ_cons, List.drop_zero, List.take_succ_cons, List.take_zero, List.drop_nil,
+      sumStops_cons, sumStops_nil]
+    omega
+  obtain ⟨endCap, hlegs, hend⟩ := legsGo_ok P t v.capacity ep sl s0 tl (fun s hs => hc s (by simp [hs]))
+    (fun s hs => by obtain ⟨m, hm⟩ := hmemIdx s hs; exact (hat m s hm).2.2)
+    (fun s hs => by obtain ⟨m, hm⟩ := hmemIdx s hs; exact (hat m s hm).1)
+    hacc0
+    (loadChain_of_positional P v dynB ep [] s0 tl (by simpa using hep)
+      (by intro m s hm d; exact (hat m s (by simpa using hm)).2.1 d))
+  refine ⟨sd, ep, sl, endCap, hr, hsl, hlegs, ?_⟩
+  intro d
+  rw [lget_lsub, hend d, hep d]
+  unfold carryAfter
+  have hlast : (s0 :: tl)[(s0 :: tl).length - 1]? = some ((s0 :: tl).getLast (by simp)) := by
+    rw [List.getLast_eq_getElem]
+    simp
+  rw [(hat _ _ hlast).2.1 d]
+
+theorem carryAfter_beyond (P : Problem) (v : VType) (dynB : Nat → Int) (iv : List Stop) (d : Nat)
+    (hd : dims P v ≤ d) (hz : dynB d = 0) : carryAfter P dynB iv d = 0 := by
+  unfold carryAfter
+  rw [expectedLoad_beyond P v dynB iv _ d hd, hz,
+      sumStops_zero (stopP P d) iv (fun s => (stop_sums_zero_beyond P v d hd s).2.1)]
+  rfl
+
+/-- all reload intervals of a tour -/
+theorem intervalsGo_ok (P : Problem) (t : Tour) (v : VType) (ivs : List (List Stop)) (dynB : Nat → Int) (acc : Load)
+    (hlen : ∀ iv ∈ ivs, 2 ≤ iv.length)
+    (hc : ∀ iv ∈ ivs, ∀ s ∈ iv, ∀ a ∈ s.acts, ActCorr P t s a)
+    (hacc : ∀ d, lget acc d = dynB d) (hz : ∀ d, dims P v ≤ d → dynB d = 0)
+    (hspec : intervalsLoadsOk P v.capacity (dims P v) dynB ivs = true) :
+    intervalsGo P t v.capacity acc ivs = .ok () := by
+  induction ivs generalizing dynB acc with
+  | nil => rfl
+  | cons iv rest ih =>
+    simp only [intervalsLoadsOk, Bool.and_eq_true] at hspec
+    cases hiv : iv with
+    | nil => have := hlen iv (by simp); rw [hiv] at this; simp at this
+    | cons s0 tl =>
+      rw [hiv] at hspec
+      obtain ⟨sd, ep, sl, endCap, hs, hst, hl, hcarry⟩ :=
+        interval_ok P t v dynB acc s0 tl (by rw [← hiv]; exact hc iv (by simp)) hacc hz hspec.1
+      simp only [intervalsGo, hs, hst, hl]
+      exact ih (carryAfter P dynB (s0 :: tl)) (lsub endCap ep)
+        (fun iv' h' => hlen iv' (by simp [h'])) (fun iv' h' => hc iv' (by simp [h']))
+        hcarry (fun d hd => carryAfter_beyond P v dynB _ d hd (hz d hd)) hspec.2
+
+/-- **Completeness of the load group**: reported loads that equal the positional formula (deliveries still ahead in the
+reload interval + pickups collected in it + goods of pickup-and-delivery jobs on board, pickups leaving at the tour end)
+and fit the capacity pass the interval fold of `check_vehicle_load_assignment` (start-delivery / end-pickup accounting,
+start load of the first stop, leg by leg comparison, carry over reloads). -/
+theorem loads_complete (P : Problem) (S : Solution) (h : loadsOk P S = true) : ∀ r ∈ checkLoad P S, r = none := by
+  intro r hr
+  simp only [checkLoad, List.mem_cons, List.mem_nil_iff, or_false] at hr
+  rcases hr with rfl | rfl
+  · rw [firstErrOf_eq_none]
+    intro t ht
+    simp only [loadsOk, List.all_eq_true] at h
+    have hto := h t ht
+    unfold checkLoadTour
+    cases hv : findVehicle P t.vehicleId with
+    | none => simp [hv] at hto
+    | some v =>
+      simp only [hv] at hto ⊢
+      cases hi : intervals t.stops with
+      | none => simp [hi] at hto
+      | some ivs =>
+        simp only [hi, Bool.and_eq_true, Bool.or_eq_true, decide_eq_true_eq] at hto ⊢
+        obtain ⟨hknown, hspec⟩ := hto
+        have : intervalsGo P t v.capacity [] ivs = .ok () := by
+          by_cases h2 : 2 ≤ t.stops.length
+          · have hk : actsKnown P t = true := by
+              rcases hknown with h1 | h1
+              · omega
+              · exact h1
+            obtain ⟨hflat, hlen⟩ := intervals_cover t.stops ivs hi h2
+            apply intervalsGo_ok P t v ivs (fun _ => 0) [] hlen _ (fun d => lget_nil d) (fun _ _ => rfl) hspec
+            intro iv hiv s hs a ha
+            have : s ∈ t.stops := by rw [← hflat]; exact List.mem_flatten.2 ⟨iv, hiv, hs⟩
+            exact actCorr_of_known P t hk s this a ha
+          · -- a tour with at most one stop has no interval
+            have : ivs = [] := by
+              unfold intervals at hi
+              cases hst : t.stops with
+              | nil => rw [hst] at hi; simpa using hi.symm
+              | cons s0 rest =>
+                cases rest with
+                | nil => rw [hst] at hi; simpa using hi.symm
+                | cons s1 r => rw [hst] at h2; simp at h2
+            rw [this]; rfl
+        rw [this]
+  · rfl
+
+end C12
+
+namespace C12
+open Spec
+
+theorem intervalsLoadsOk_each (P : Problem) (cap : Load) (nd : Nat) (dynB : Nat → Int) (ivs : List (List Stop))
+    (h : intervalsLoadsOk P cap nd dynB ivs = true) :
+    ∀ iv ∈ ivs, ∃ dynB', intervalLoadsOk P cap nd dynB' iv = true := by
+  induction ivs generalizing dynB with
+  | nil => intro iv hiv; simp at hiv
+  | cons iv0 rest ih =>
+    simp only [intervalsLoadsOk, Bool.and_eq_true] at h
+    intro iv hiv
+    simp only [List.mem_cons] at hiv
+    rcases hiv with rfl | hiv
+    · exact ⟨dynB, h.1⟩
+    · exact ih _ h.2 iv hiv
+
+/-- breach *load above capacity*, half 1: a stop of a moving tour that reports more than the capacity in one of the
+dimensions in play violates the specification -/
+theorem breach_load_above_capacity_invalid (P : Problem) (S : Solution) (t : Tour) (v : VType) (s : Stop) (d : Nat)
+    (ht : t ∈ S.tours) (hv : findVehicle P t.vehicleId = some v) (h2 : 2 ≤ t.stops.length) (hs : s ∈ t.stops)
+    (hd : d < dims P v) (hover : s.load.getD d 0 > v.capacity.getD d 0) : validSolution P S = false := by
+  cases hval : validSolution P S with
+  | false => rfl
+  | true =>
+    exfalso
+    have hl := ((valid_iff P S).1 hval).2.2.2.1
+    simp only [loadsOk, List.all_eq_true] at hl
+    have hto := hl t ht
+    simp only [hv] at hto
+    cases hi : intervals t.stops with
+    | none => simp [hi] at hto
+    | some ivs =>
+      simp only [hi, Bool.and_eq_true] at hto
+      obtain ⟨hflat, _⟩ := intervals_cover t.stops ivs hi h2
+      have : s ∈ ivs.flatten := by rw [hflat]; exact hs
+      obtain ⟨iv, hiv, hsiv⟩ := List.mem_flatten.1 this
+      obtain ⟨dynB', hok⟩ := intervalsLoadsOk_each P _ _ _ ivs hto.2 iv hiv
+      obtain ⟨m, hm, rfl⟩ := List.mem_iff_getElem.1 hsiv
+      have := intervalLoadsOk_at P _ _ dynB' iv hok m iv[m] (by simp [hm])
+      simp only [stopLoadOk, Bool.and_eq_true, List.all_eq_true, List.mem_range, decide_eq_true_eq] at this
+      have := (this.2 d hd).2
+      omega
+
+end C12
+
+namespace C12
+open Spec
+
 /-! ## strict relations: `intersection` against "the ids occur one directly after the other" -/
 
 theorem filterMap_zip_length (L J : List String) :
@@ -2342,27 +3083,39 @@ theorem breach_missing_break_invalid (P : Problem) (S : Solution) (t : Tour) (ht
 /-! ## the combined statement -/
 
 /-- **The checker accepts valid solutions (partial).** On supported inputs a solution that satisfies the documented rules
-passes the vehicle test, the job presence (partition) test, the routing/statistic group and the limits group of the
-model checker. NOT yet proved from the specification and therefore hypotheses here: acceptance by the load group (the
-positional load formula against the interval fold), by the relations and the breaks group, by the activity matcher and
-the group test. All of them are compared with the real checker and the specification on every generated case. -/
+passes the load group (interval fold against the positional load formula), the vehicle test, the job presence (partition)
+test, the routing/statistic group and the limits group of the model checker, and no index underflow happens.
+NOT yet proved from the specification and therefore hypotheses here: acceptance by the relations and the breaks group, by
+the activity matcher and by the group test. They are compared with the real checker and the specification on every
+generated case. -/
 theorem checker_complete_partial (P : Problem) (S : Solution)
     (hsup : supported P S = true) (hval : validSolution P S = true)
-    (hload : ∀ r ∈ checkLoad P S, r = none) (hrel : ∀ r ∈ checkRelations P S, r = none)
-    (hbrk : ∀ r ∈ checkBreaks P S, r = none) (hmatch : checkMatch P S = none) (hgroups : checkGroups P S = none)
-    (hnopanic : S.tours.any (fun t => (intervals t.stops).isNone) = false) :
+    (hrel : ∀ r ∈ checkRelations P S, r = none) (hbrk : ∀ r ∈ checkBreaks P S, r = none)
+    (hmatch : checkMatch P S = none) (hgroups : checkGroups P S = none) :
     check P S = [] := by
-  obtain ⟨hveh, hpart, _, _, hrout, hlim, _, _, _⟩ := (valid_iff P S).1 hval
+  obtain ⟨hveh, hpart, _, hloads, hrout, hlim, _, _, _⟩ := (valid_iff P S).1 hval
   simp only [supported, Bool.and_eq_true, List.all_eq_true] at hsup
   obtain ⟨hprob, hshape⟩ := hsup
   simp only [problemShapeOk, Bool.and_eq_true, List.all_eq_true, Bool.not_eq_true'] at hprob
   obtain ⟨⟨⟨hids, htasks⟩, _⟩, _⟩ := hprob
   rw [check_eq_nil]
-  refine ⟨hnopanic, ?_⟩
+  refine ⟨?_, ?_⟩
+  · -- valid loads presuppose well-formed intervals
+    rw [List.any_eq_false]
+    intro t ht
+    simp only [loadsOk, List.all_eq_true] at hloads
+    have := hloads t ht
+    cases hv : findVehicle P t.vehicleId with
+    | none => simp [hv] at this
+    | some v =>
+      simp only [hv] at this
+      cases hi : intervals t.stops with
+      | none => simp [hi] at this
+      | some ivs => simp
   intro g
   rw [groupErrors_eq_nil]
   cases g with
-  | load => exact hload
+  | load => exact loads_complete P S hloads
   | relations => exact hrel
   | breaks => exact hbrk
   | assignment =>
